@@ -109,6 +109,7 @@ type btreeNode struct {
 }
 
 func (n *btreeNode) markDirty(lsn uint64) {
+	verifPoint("page.dirty", n.fileOffset)
 	n.lastLSN = lsn
 	n.dirty = true
 }
@@ -697,6 +698,7 @@ func (f *fileStore) update(node *btreeNode) error {
 	if err != nil {
 		return err
 	}
+	verifPoint("page.write", node.getFileOffset())
 	if _, err := f.file.WriteAt(buf.Bytes(), int64(node.getFileOffset())); err != nil {
 		return err
 	}
@@ -767,6 +769,7 @@ func (f *fileStore) save() error {
 	if err := binary.Write(writer, binary.LittleEndian, f._nextLSN); err != nil {
 		return err
 	}
+	verifPoint("header.write", 0)
 	if _, err := f.file.WriteAt(writer.Bytes(), 0); err != nil {
 		return err
 	}
